@@ -19,6 +19,7 @@
 -/
 import CijProofs.Lemmas.NonShearCalculus
 import CijProofs.Lemmas.NonShearSource
+import CijProofs.Lemmas.ModeGammaSource
 
 namespace Cij.C01
 
@@ -255,5 +256,15 @@ theorem c01_q_is_source (x : ℝ) :
   constructor
   · simp [q1, Generated.q1Expr, QExpr.eval]
   · simp [q2, Generated.q2Expr, QExpr.eval, List.replicate]
+
+/-! #### ties shared with other properties
+
+The statement of this property also rests on code whose translation is owned by another property's file; the theorems are restated
+here so that this property's obligations are re-checked against those files too (a change there breaks THIS check's proof as well). -/
+
+/-- the glue of `cij/core/mode_gamma.py` this property's statement rests on (which member of the returned triple is γ, which
+V∂γ/∂V, the signs): every `interpolate_mode_*` function returns `(exp s, −s′, −s″)` as translated on this run -/
+theorem c01_mode_glue_is_source : ∀ e ∈ Generated.modeReturnPattern, e.2 = Cij.Interp.canonicalPattern :=
+  Cij.Interp.return_pattern_is_source
 
 end Cij.C01
